@@ -442,7 +442,11 @@ def describe(line):
 
 PREFIXES = ["", "/api", "/apix", "/api/v1", "/a"]
 PATHS = ["", "/", "/api", "/api/", "/apix", "/api/v1", "/api/v1/", "/api/v1/x", "/apiv1", "/a", "/a/api",
-         "/api/api", "api", "//api", "/API", "/api//", "/b", "/apix/y"]
+         "/api/api", "api", "//api", "/API", "/api//", "/b", "/apix/y",
+         # unusual characters: a path is arbitrary text (newline, tab, non-ASCII, regex metacharacters)
+         "/api\n", "/api/a\nb", "/api\n/x", "\n/api", "/api/\n", "/a\tb", "/api/é", "/api.", "/api$", "/api/(x", "/a\r\n"]
+ROOTS_Q = [None, "/r", "/r/", "/"]          # initial root paths of the quick tier (incl. trailing '/')
+ROOTS_T = [None, "/r", "", "/r/", "/", "/api", "/srv/"]
 PATTERNS = [r"example\.com", r"(www\.)?example\.com", r"^api\.example\.com$", r"api|www", r".*",
             r".*\.example\.com", r"example.com", r"EXAMPLE\.COM", r"(?i)example\.com", r"example\.com(:\d+)?",
             r"[^.]+\.example\.com", r"", r"a|ab", r"ab|a", r"example\.com$", r"^example", r"example\.com\.?",
@@ -492,7 +496,7 @@ def guided_path(rng, tree):
         key, node = rng.choice(node[1])
         if isinstance(key, str) and rng.random() < 0.85:
             parts.append(key)
-    tail = rng.choice(["", "", SLASH, "/x", "x", "/api", "/x/y", "//", "/é"])
+    tail = rng.choice(["", "", SLASH, "/x", "x", "/api", "/x/y", "//", "/é", "\n", "/a\nb", "/\n", "\t"])
     path = "".join(parts) + tail
     if rng.random() < 0.2 and path:
         k = rng.randrange(len(path))
@@ -516,7 +520,7 @@ def cases(rng, tier):
                                                 tuple(reversed(PREFIXES))]
     for ps in tables:
         for path in PATHS:
-            for root in ((None, "/r", "") if thorough else (None, "/r")):
+            for root in (ROOTS_T if thorough else ROOTS_Q):
                 yield mk(flat(ps), root, path, "example.com", [])
 
     # 2. depth 2: every prefix carrying every inner table, '' sibling before / after / absent
@@ -533,7 +537,7 @@ def cases(rng, tier):
                 tree = number(("M", ents), [0])
                 paths = comp if thorough else rng.sample(comp, 14)
                 for path in paths:
-                    yield mk(tree, rng.choice([None, "", "/r"]), path, None, [])
+                    yield mk(tree, rng.choice([None, "", "/r", "/r/", "/"]), path, None, [])
 
     # 3. depth 3 chains (depth 4 in the thorough tier): nested mounts compose
     chain_pool = ["", "/api", "/api/v1", "/a"]
@@ -545,7 +549,7 @@ def cases(rng, tier):
         joined = "".join(ps)
         for path in [joined, joined + SLASH, joined + "/x", joined + "x", joined[:-1], "/apix" + joined,
                      "".join(ps[:-1]), "".join(ps[:-1]) + "/apix"]:
-            yield mk(tree, rng.choice([None, "/r"]), path, None, [])
+            yield mk(tree, rng.choice([None, "/r", "/srv/"]), path, None, [])
 
     # 4. host tables
     for n in range(1, (3 if thorough else 2) + 1):
@@ -578,7 +582,7 @@ def cases(rng, tier):
         host = rng.choice(HOSTS + ["example.com", "www.example.com", "api.example.com", "api"])
         if rng.random() < 0.1:
             host = "".join(rng.choice("aAbpi.:x w") for _ in range(rng.randrange(0, 6)))
-        root = rng.choice([None, "", "/r", "/api", "/r/s"])
+        root = rng.choice([None, "", "/r", "/api", "/r/s", "/r/", "/", "/api/"])
         for _ in range(2):
             yield mk(tree, root, guided_path(rng, tree), host, PATTERNS)
 
